@@ -191,6 +191,11 @@ func (lg *locGen) op() map[string]interface{} {
 				rule = rulePat(map[string]interface{}{"?p": lg.g.scalar()})
 			}
 		}
+		if lg.profile == "lifecycle" && r.Intn(5) == 0 {
+			// a scheduled (when-less) rule: it runs when the cron service sends {"trigger!": id}
+			rule["schedule"] = pick(r, "+1h", "0 0 * * * * *").(string)
+			delete(rule, "when")
+		}
 		if lg.profile == "cascade" && r.Intn(2) == 0 {
 			rule["deleteWith"] = []interface{}{lg.ids[r.Intn(len(lg.ids))]}
 			if r.Intn(3) == 0 {
@@ -248,6 +253,13 @@ func (lg *locGen) op() map[string]interface{} {
 		o["op"], o["id"] = "getfact", id
 	case 5:
 		o["op"], o["id"] = "getrule", id
+		switch lg.profile {
+		case "forest", "lifecycle", "acl", "dispatch", "cascade", "cache":
+			if r.Intn(3) == 0 {
+				delete(o, "id")
+				o["op"], o["inherited"] = "listrules", r.Intn(2) == 0
+			}
+		}
 	case 6:
 		o["op"] = "search"
 		var src map[string]interface{}
@@ -267,6 +279,10 @@ func (lg *locGen) op() map[string]interface{} {
 		ev := deepCopy(lg.events[r.Intn(len(lg.events))]).(map[string]interface{})
 		if r.Intn(5) == 0 {
 			ev = lg.g.mutate(ev).(map[string]interface{})
+		}
+		if lg.profile == "lifecycle" && r.Intn(5) == 0 {
+			// a tick of the cron service for one of the rule ids (scheduled or not, enabled or not)
+			ev = map[string]interface{}{"trigger!": id}
 		}
 		o["event"] = ev
 	case 8:
@@ -384,6 +400,7 @@ func genLocCase(r *rand.Rand, prof string) Case {
 		lg.ids = append(lg.ids, "?v") // variable-looking id (D14)
 	}
 	lg.hooks = prof == "dispatch" && r.Intn(3) == 0
+	fuzzHooks := prof == "fuzz" && r.Intn(3) == 0
 	nlocs := 1
 	if prof == "forest" {
 		nlocs = 3 + r.Intn(2)
@@ -401,6 +418,11 @@ func genLocCase(r *rand.Rand, prof string) Case {
 		if prof == "cronhooks" {
 			l["hooks"] = true
 			l["persistent"] = r.Intn(2) == 0
+		}
+		if fuzzHooks {
+			// (the cron hooks of a System: a rejecting hook is one more error path)
+			l["hooks"] = true
+			l["persistent"] = true
 		}
 		if prof == "dispatch" && lg.hooks {
 			l["hooks"] = true
@@ -457,6 +479,23 @@ func genLocCase(r *rand.Rand, prof string) Case {
 			map[string]interface{}{"loc": "L0", "op": "reload"},
 			map[string]interface{}{"loc": "L0", "op": "storeids"},
 			map[string]interface{}{"loc": "L0", "op": "getfact", "id": "e0"})
+	}
+	if prof == "expiry" && len(ops) == 0 && r.Intn(5) == 0 {
+		// scripted opening: a rule expires while it is disabled, is first observed by an event, and is
+		// then added again under the same id: the new rule was never disabled and must fire
+		ev := map[string]interface{}{"k": "x"}
+		short := rulePat(map[string]interface{}{"k": "?v"})
+		short["ttl"] = 1.0
+		ops = append(ops,
+			map[string]interface{}{"loc": "L0", "op": "addrule", "id": "x0", "rule": short},
+			map[string]interface{}{"loc": "L0", "op": "enablerule", "id": "x0", "enable": false},
+			map[string]interface{}{"loc": "L0", "op": "event", "event": deepCopy(ev), "sleep": 2},
+			map[string]interface{}{"loc": "L0", "op": "storeids"},
+			map[string]interface{}{"loc": "L0", "op": "addrule", "id": "x0", "rule": rulePat(map[string]interface{}{"k": "?v"})},
+			map[string]interface{}{"loc": "L0", "op": "event", "event": deepCopy(ev)},
+			map[string]interface{}{"loc": "L0", "op": "storeids"},
+			map[string]interface{}{"loc": "L0", "op": "reload"},
+			map[string]interface{}{"loc": "L0", "op": "event", "event": deepCopy(ev)})
 	}
 	if prof == "durable" && r.Intn(4) == 0 {
 		// scripted opening: a parent fact with two dependents, then its removal, with the injected
@@ -552,6 +591,9 @@ func (h *hookCatcher) RemHook(f core.RemHookFn) { h.rem = f }
 var errVetoed = errors.New("vetoed by the add hook")
 
 type locWorld struct {
+	states map[string]core.State // the State behind each open location
+	// ctxHook, if set, adjusts the Context execLocOp creates for an operation (conc-steer: log hook)
+	ctxHook  func(ctx *core.Context, o map[string]interface{})
 	cronners map[string]*recCronner
 	ctx      *core.Context
 	fails    map[string]*failStorage
@@ -584,6 +626,10 @@ func (w *locWorld) open(name string) error {
 	if err != nil {
 		return err
 	}
+	if w.states == nil {
+		w.states = map[string]core.State{}
+	}
+	w.states[name] = state
 	if rc := w.cronners[name]; rc != nil {
 		// the hooks of the harness: a validating add hook that rejects anything marked "veto": true
 		// (in the fact or in its rule body), then the cron hooks (captured from cron.AddHooks)
@@ -735,6 +781,9 @@ func execLocOp(w *locWorld, o map[string]interface{}) {
 	ctx := core.NewContext("rh")
 	ctx.Verbosity = core.NOTHING
 	ctx.ReadKey, ctx.WriteKey = str(o["rk"]), str(o["wk"])
+	if w.ctxHook != nil {
+		w.ctxHook(ctx, o)
+	}
 	if loc == nil {
 		o["res"] = map[string]interface{}{"ok": false, "class": "noloc"}
 		o["t"], o["t2"] = time.Now().Unix(), time.Now().Unix()
@@ -769,6 +818,26 @@ func execLocOp(w *locWorld, o map[string]interface{}) {
 			}
 		}
 	case "addrule":
+		if rm := obj(o["rule"]); rm != nil && boolean(rm["veto"]) {
+			// A vetoed add is only exercised as the replacement of a stored rule by one with the SAME
+			// `when` (decided here, on the real location, so that it also holds when a history is
+			// shrunk or replayed): an indexed add of a new pattern that is undone leaves empty nodes
+			// in the pattern index, which the model's "state unchanged" does not carry (they decide
+			// whether an unsortable event is refused, finding D7).
+			same := false
+			if st := w.states[name]; st != nil {
+				if cur, err := st.Get(ctx, id); err == nil {
+					if cr, isRule := cur["rule"].(map[string]interface{}); isRule {
+						a, _ := json.Marshal(cr["when"])
+						b, _ := json.Marshal(plain(rm["when"]))
+						same = string(a) == string(b)
+					}
+				}
+			}
+			if !same {
+				delete(rm, "veto")
+			}
+		}
 		got, err := loc.AddRule(ctx, id, core.Map(plain(o["rule"]).(map[string]interface{})))
 		if err != nil {
 			res = errRes(err)
@@ -848,6 +917,18 @@ func execLocOp(w *locWorld, o map[string]interface{}) {
 			res = errRes(err)
 		} else {
 			res = map[string]interface{}{"ok": true, "n": n}
+		}
+	case "listrules":
+		ids, err := loc.ListRules(ctx, boolean(o["inherited"]))
+		if err != nil {
+			res = errRes(err)
+		} else {
+			sort.Strings(ids)
+			out := make([]interface{}, 0, len(ids))
+			for _, x := range ids {
+				out = append(out, x)
+			}
+			res = map[string]interface{}{"ok": true, "ids": out}
 		}
 	case "storeids":
 		// the raw contents of the location's storage (not through the fault injector): ids only
